@@ -125,8 +125,11 @@ def execute(ex: Execution, keys: list[str], max_cancels: int, combined: bool) ->
             elif not entered[i]:
                 v.append(("waiter_never_enters", w, f"task {i} finished without entering"))
         if all(t.done() for t in tasks.values()):
-            if locks._locks or locks._refs:
-                v.append(("lock_state_left_behind", w, f"_locks={list(locks._locks)} _refs={locks._refs} after all "
+            # whatever per-key bookkeeping the implementation keeps (dict-valued attributes) must be empty again
+            left = {k: (list(val) if not isinstance(val, dict) else dict(val)) for k, val in vars(locks).items()
+                    if isinstance(val, (dict, set, list)) and val}
+            if left:
+                v.append(("lock_state_left_behind", w, f"per-key state {left!r} after all "
                                                        f"holders and waiters are gone (states {state})"))
         obs = {"states": list(state), "_metrics": {"max_concurrency": sum(1 for s in state if s != "new")}}
         return obs, v
